@@ -15,7 +15,8 @@ Case = (prog ops).
                                      4 Effect::new_isomorphic, 5 ImmediateEffect (not modelled: compare=False)
   expr : (0 z) | (1 j) get | (2 j) get_untracked | (3 e) untrack | (4 a b) + | (5 a b) < | (6 c a b) if | (7 s e) set
   op   : (0 s v) set | (1 s) notify | (2 n) read | (3 k) poll k-th ready | (4) run to idle
-         | (5 e) pause | (6 e) resume | (7 e) dispose
+         | (5 e) pause | (6 e) resume | (7 e) dispose | (8 n) dispose the arena signal / memo n (its later
+           reads by bodies give 0 and track nothing; no later set / notify / top-level read of n)
 Events printed by harness and model:
   (0 n v) top-level read | (1 i) body starts | (2 who j v t) read inside body `who` (-1: none)
   | (3 i v) body ends | (5 i)/(6 i v) watch handler | (7) idle | (8 e) task polled | (9) no idle
@@ -179,11 +180,34 @@ def valid_expr(e, depth=0):
     return False
 
 
+def disposable(prog, n):
+    """arena handles only (Arc handles are kept alive by the closures that read them), not written by
+    any effect and not wrapped (a wrapper keeps the inner value alive)"""
+    nd = prog[n]
+    if not ((nd[0] == SIG and nd[1] in (1, 2)) or (nd[0] == MEMO and nd[2] == 1)):
+        return False
+    for other in prog:
+        for b in bodies(other):
+            if n in writes_of(b):
+                return False
+        if other[0] == DER and other[1] >= 3 and other[2][0] == 1 and other[2][1] == n:
+            return False
+    return True
+
+
 def valid_ops(prog, ops):
+    gone = set()
     for o in ops:
         if not isinstance(o, list) or not o:
             return False
         k = o[0]
+        if k in (0, 1, 2, 8) and len(o) >= 2 and o[1] in gone:
+            return False
+        if k == 8:
+            if len(o) != 2 or not (0 <= o[1] < len(prog)) or not disposable(prog, o[1]):
+                return False
+            gone.add(o[1])
+            continue
         if k == 0:
             if len(o) != 3 or not (0 <= o[1] < len(prog)) or prog[o[1]][0] != SIG:
                 return False
@@ -356,8 +380,34 @@ def add_writes(rng, prog):
         memo.clear()
 
 
-def gen_ops(rng, prog, n_ops, w=(0.34, 0.05, 0.36, 0.10, 0.10, 0.05), vals=(0, 1, 2, 3)):
+def add_disposals(rng, prog, ops, p_drop):
+    """dispose one or two arena signals / memos in the middle of the history; later set / notify /
+    top-level read of a disposed node are dropped (bodies that read it keep doing so)"""
+    if rng.random() >= p_drop:
+        return ops
+    cands = [n for n in range(len(prog)) if disposable(prog, n)]
+    # prefer nodes that somebody reads
+    read_by = set()
+    for nd in prog:
+        for b in bodies(nd):
+            for j, _ in reads_of(b):
+                read_by.add(j)
+    pref = [n for n in cands if n in read_by]
+    if pref and rng.random() < 0.85:
+        cands = pref
+    if not cands:
+        return ops
+    rng.shuffle(cands)
+    for n in cands[:rng.choice([1, 1, 2])]:
+        pos = rng.randint(1, max(1, len(ops) - 1))
+        ops = ops[:pos] + [[8, n]] + [o for o in ops[pos:] if not (o[0] in (0, 1, 2, 8) and len(o) > 1 and o[1] == n)]
+    return ops
+
+
+def gen_ops(rng, prog, n_ops, w=(0.34, 0.05, 0.36, 0.10, 0.10, 0.05), vals=(0, 1, 2, 3), p_drop=0.0):
     """weights: write, notify, read, tick, run, pause/resume/dispose"""
+    if p_drop:
+        return add_disposals(rng, prog, gen_ops(rng, prog, n_ops, w, vals), p_drop)
     sigs = [i for i, nd in enumerate(prog) if nd[0] == SIG]
     readable = [i for i, nd in enumerate(prog) if nd[0] != EFF]
     effs = [i for i, nd in enumerate(prog) if nd[0] == EFF]
@@ -426,6 +476,7 @@ class Walker:
         self.alive = {i: True for i, nd in enumerate(prog) if nd[0] == EFF}
         self.paused = {i: False for i, nd in enumerate(prog) if nd[0] == EFF}
         self.diverged = False
+        self.gone = set()      # disposed signals / memos
         self.epoch = 0         # bumped at every write (memoisation of truth values)
 
     def peek(self):
@@ -510,7 +561,9 @@ class Walker:
     def read(self, who, j, m, untr):
         nd = self.prog[j]
         t = 1 if (m and not untr and who >= 0) else 0
-        if nd[0] == DER:
+        if j in self.gone:
+            v = 0              # try_get on a disposed handle: None, nothing tracked, nothing recomputed
+        elif nd[0] == DER:
             v = self.exec(nd[2], who, untr or not m)
         else:
             if nd[0] == MEMO:
@@ -566,6 +619,9 @@ class Walker:
             elif k == 7:
                 self.alive[o[1]] = False
                 self.blocks()
+            elif k == 8:
+                self.gone.add(o[1])
+                self.epoch += 1
             self.hooks.after_op(self, o)
         if self.pos != len(self.tr):
             raise Malformed("trailing events from %d: %r" % (self.pos, self.tr[self.pos:self.pos + 3]))
@@ -591,7 +647,9 @@ class Truth:
         if j in self.memo:
             return self.memo[j]
         nd = w.prog[j]
-        if nd[0] == SIG:
+        if j in w.gone:
+            v = 0
+        elif nd[0] == SIG:
             v = w.sig[j]
         elif nd[0] == MEMO:
             log = list(w.lastlog.get(j, []))
@@ -600,7 +658,7 @@ class Truth:
             # (a source memo with a coarse comparator may have moved inside one class)
             fresh = bool(w.runs.get(j))
             for (x, vx, t) in log:
-                if t and w.prog[x][0] != DER:
+                if t and w.prog[x][0] != DER and not (x in w.gone):
                     cx = self.of(x)
                     if cx is None or not same_for_subscribers(w.prog[x], cx, vx):
                         fresh = False
@@ -645,6 +703,12 @@ class Truth:
             ent = self.next(st, j, tracked)
             return v
         ent = self.next(st, j, tracked)
+        if j in self.w.gone:
+            # disposing is not a change: a computation that need not run again keeps what its last
+            # run saw; one that runs again reads 0
+            if ent is not None and (not tracked or (st is not None and st.get("fresh"))):
+                return ent[1]
+            return 0
         if tracked:
             cur = self.of(j)
             if (st is not None and st.get("fresh") and ent is not None and nd[0] == MEMO and nd[1] == 2
@@ -787,7 +851,7 @@ class C02Hooks(Hooks):
         if seen is None:
             seen = set()
         for (j, _, t) in w.lastlog.get(i, []):
-            if t and j not in seen:
+            if t and j not in seen and j not in w.gone:      # a disposed source forwards nothing
                 seen.add(j)
                 if w.prog[j][0] == MEMO:
                     self.logged_cone(w, j, seen)
@@ -881,7 +945,7 @@ class C02Hooks(Hooks):
                 continue
             stale = None
             for (j, v, t) in w.lastlog.get(e, []):
-                if not t or w.prog[j][0] == DER:
+                if not t or w.prog[j][0] == DER or j in w.gone:
                     continue
                 want = self.truth.of(j)
                 if want is not None and not same_for_subscribers(w.prog[j], want, v):
@@ -955,7 +1019,7 @@ def describe(item):
             else:
                 h = "" if nd[1] not in (2, 3) else " handler %s" % show_expr(nd[3])
                 out.append("n%d = %s(%s)%s" % (i, ek[nd[1] % 6], show_expr(nd[2]), h))
-        on = ["set", "notify", "read", "poll#", "run-to-idle", "pause", "resume", "dispose"]
+        on = ["set", "notify", "read", "poll#", "run-to-idle", "pause", "resume", "dispose", "dispose-source"]
         os_ = []
         for o in ops:
             os_.append(on[o[0]] + ("(" + ",".join(str(x) for x in o[1:]) + ")" if len(o) > 1 else ""))
